@@ -211,3 +211,59 @@ func (h *harness) sectionFilterJoin() {
 		}
 	}
 }
+
+// sectionWitnesses replays, as protocol ops, the inputs of the defects that
+// were repaired in /repo (see findings/C04.txt), whatever the seed.
+func (h *harness) sectionWitnesses() {
+	r := h.r
+	ms, rhelOpt := realMatchers(h.ctx)
+	al2 := distT{did: "amzn", name: "Amazon Linux", ver: "2", vid: "2", cpe: "cpe:2.3:o:amazon:amazon_linux:2:*:*:*:*:*:*:*", pretty: "Amazon Linux 2"}
+	al1 := distT{did: "amzn", name: "Amazon Linux AMI", ver: "2018.03", vid: "2018.03", cpe: "cpe:2.3:o:amazon:linux:2018.03:ga:*:*:*:*:*:*", pretty: "Amazon Linux AMI 2018.03"}
+	base := recT{pn: "openssl", pk: "binary", src: true, sn: "openssl-src", sk: "source", hasDist: true, d: al2, ver: "1.0.0"}
+	row := rowT{vn: "openssl", vk: "binary", d: al2, fixed: "2.0.0"}
+	// b3acc276: the DistributionCPE constraint (set, different, unset on both sides)
+	opJoin(r, []string{"DistributionCPE"}, false, base, row)
+	row2 := row
+	row2.d = al1
+	opJoin(r, []string{"DistributionCPE", "DistributionDID"}, false, base, row2)
+	nocpe := base
+	nocpe.d.cpe = ""
+	row3 := row
+	row3.d.cpe = ""
+	opJoin(r, []string{"DistributionCPE"}, false, nocpe, row3)
+	opJoin(r, []string{"DistributionCPE"}, false, nocpe, row)
+	// 16ec58ad: records without Source / Distribution / Repository
+	nosrc := base
+	nosrc.src, nosrc.sn, nosrc.sk = false, "", ""
+	opJoin(r, []string{"DistributionDID"}, false, nosrc, row)
+	srcRow := row
+	srcRow.vn, srcRow.vk = "openssl-src", "source"
+	opJoin(r, nil, false, nosrc, srcRow)
+	opJoin(r, nil, false, base, srcRow)
+	nodist := base
+	nodist.hasDist = false
+	opJoin(r, []string{"DistributionDID"}, false, nodist, row)
+	opJoin(r, []string{"PackageModule", "DistributionDID"}, false, nodist, row)
+	opJoin(r, []string{"RepositoryName"}, false, base, row)
+	opJoin(r, []string{"PackageModule", "HasFixedInVersion"}, false, nodist, row)
+	py := recT{pn: "requests", pk: "binary", nk: "pep440", ver: "1.0.0"}
+	pyRow := rowT{vn: "requests", vk: "binary", rname: "pypi", ruri: "https://pypi.org/", fixed: "fixed=2.0.0"}
+	opFilter(r, "python", ms["python"], py)
+	opMatch(h.ctx, r, "python", ms["python"], false, py, pyRow)
+	py.src = true
+	opMatch(h.ctx, r, "python", ms["python"], false, py, pyRow)
+	py.hasRepo, py.rname, py.ruri = true, "pypi", "https://pypi.org/simple"
+	opMatch(h.ctx, r, "python", ms["python"], false, py, pyRow)
+	// rhel with and without ignoreUnpatched
+	rh := recT{pn: "bash", pk: "binary", src: true, pa: "x86_64", ver: "0:1.0-1.el8", hasRepo: true, rname: "cpe:/o:redhat:enterprise_linux:8::baseos", rkey: "rhel-cpe-repository"}
+	rhRow := rowT{vn: "bash", vk: "binary", rname: "cpe:/o:redhat:enterprise_linux:8", rkey: "rhel-cpe-repository", fixed: ""}
+	opMatch(h.ctx, r, "rhel", ms["rhel"], false, rh, rhRow)
+	opMatch(h.ctx, r, "rhel", rhelOpt, true, rh, rhRow)
+	rhRow.fixed = "0:2.0-1.el8"
+	opMatch(h.ctx, r, "rhel", rhelOpt, true, rh, rhRow)
+	// unknown / undeclared constraints
+	opJoin(r, []string{"PackageName"}, false, base, row)
+	opJoin(r, []string{"PackageSourceName"}, false, base, row)
+	opJoin(r, []string{"Bogus"}, false, base, row)
+	opJoin(r, []string{"DistributionDID", "DistributionDID", "Bogus"}, false, base, row)
+}
